@@ -24,24 +24,42 @@
 #include <dlfcn.h>
 #include <pthread.h>
 
-static uint64_t state = 0;
+/* One stream per thread: the stream of the thread that runs the simulation must not depend on
+ * when helper threads (rayon / blocking pool: thread-local hash seeds, temp names) draw.
+ * A thread's stream is derived from (seed, epoch, ordinal of its first draw since the last
+ * reseed); the run thread is the first to draw after a reseed, so its stream is a function of
+ * the seed alone. */
+static uint64_t base_seed = 0;
+static uint64_t epoch = 1;
+static uint64_t next_ordinal = 0;
 static int inited = 0;
 static pthread_mutex_t mu = PTHREAD_MUTEX_INITIALIZER;
 static volatile int64_t sim_clock_ns = 0;
+static __thread uint64_t t_state = 0;
+static __thread uint64_t t_epoch = 0;
 
-static uint64_t next(void) {
-    uint64_t z = (state += 0x9E3779B97F4A7C15ULL);
+static uint64_t mix64(uint64_t z) {
     z = (z ^ (z >> 30)) * 0xBF58476D1CE4E5B9ULL;
     z = (z ^ (z >> 27)) * 0x94D049BB133111EBULL;
     return z ^ (z >> 31);
 }
 
+static uint64_t next(void) {
+    return mix64(t_state += 0x9E3779B97F4A7C15ULL);
+}
+
 static void fill(void *buf, size_t len) {
-    pthread_mutex_lock(&mu);
-    if (!inited) {
-        const char *s = getenv("VERIF_RAND_SEED");
-        state = s ? strtoull(s, NULL, 10) : 0x1234567;
-        inited = 1;
+    if (t_epoch != epoch) {
+        pthread_mutex_lock(&mu);
+        if (!inited) {
+            const char *s = getenv("VERIF_RAND_SEED");
+            base_seed = s ? strtoull(s, NULL, 10) : 0x1234567;
+            inited = 1;
+        }
+        uint64_t ord = next_ordinal++;
+        t_state = mix64(base_seed ^ mix64(ord + 0x51ed270b1ULL));
+        t_epoch = epoch;
+        pthread_mutex_unlock(&mu);
     }
     unsigned char *p = buf;
     while (len > 0) {
@@ -50,13 +68,14 @@ static void fill(void *buf, size_t len) {
         for (size_t i = 0; i < n; i++) p[i] = (unsigned char)(v >> (8 * i));
         p += n; len -= n;
     }
-    pthread_mutex_unlock(&mu);
 }
 
 void verif_reseed(uint64_t seed) {
     pthread_mutex_lock(&mu);
-    state = seed;
+    base_seed = seed;
     inited = 1;
+    epoch++;
+    next_ordinal = 0;
     pthread_mutex_unlock(&mu);
 }
 
